@@ -98,6 +98,14 @@ def run_property(prop, tier, modname=None):
     for r in rules:
         tags = r["quick"] if tier == "quick" else r["thorough"]
         run.rule = r["id"]
+        if r.get("no_db"):
+            if (tier == "quick" and r.get("in_quick")) or tier == "thorough":
+                run.tag = "etype"
+                try:
+                    r["fn"](run, {})
+                except Exception as e:
+                    run.fail("rule-crash", "rule crashed (fail closed): %s\n%s" % (e, traceback.format_exc()[-1500:]))
+            continue
         if r.get("multi"):
             run.tag = "+".join(tags)
             try:
